@@ -201,58 +201,102 @@ CHECKS = {'C01': {'text': 'Lean theorems about an interleaving transition system
          'note': 'Trusted: Lean kernel + 3 standard axioms; correspondence harness and its generator; deque(maxlen) and threading.Condition are '
                  'modelled/exercised, not verified. Blocking get_next_signal is exercised with real threads only.',
          'technique': 'Lean 4 proof (inductive invariant over op sequences) + differential correspondence with the real class'},
- 'C10': {'text': 'Lean theorems over all reachable states / all finite histories of an interleaving model of the task lifecycle (task thread: '
-                 'initOk/initFail/wake/runEnter/updCheck/updPop/runEnd/mark/threadEnd; runner constructor; serialised runner operations '
-                 'startCheck+startKick, stopRegion+stopSet, blocking join, isRunning, setSettings/getSettings/getPending; one action per `with '
-                 '_state_cond` region): run_at_most_once(+_hist), run_only_after_start(+_hist), stop_first_never_runs(+_hist), second_start_refused '
-                 '/ start_after_stop_refused, first_start_accepted, start_never_asserts, join_returns_only_when_finished, join_raises_iff_exception, '
-                 'join_after_stop_first_not_stuck, is_running_iff_running, update_true_iff_posted_since_last and settings_newest_wins (incl. a post '
-                 'between the emptiness test and the pop), pending_is_newest. Tie: the real context, task proxy (incl. with-form), QMI_TaskRunner '
-                 'and _TaskThread under the deterministic scheduler with scripted task bodies and random runner histories (2.9k scenarios quick / '
-                 '22k thorough); taps at every protected region, the stop flag and every settings-deque operation give a linearised event log that '
-                 "the Lean driver replays (each event enabled, same result, same state abstraction; a reported 'join waits for ever' must be a model "
-                 'state where join is disabled); independent oracle.',
-         'note': 'Trusted: Lean kernel + 3 axioms; detsched/simworld harness and the taps. Region = one action; deque(maxlen=1) modelled as an '
-                 'Option slot (real deque contents reported); RPC serialisation (C03), signal publication in update_settings (C07), wake-up in '
-                 'stop_task (C11), _request_shutdown and QMI_LoopTask are outside the model. No defect found.',
-         'technique': 'Lean 4 proof (inductive invariant over an interleaving transition system + history lemmas) + trace refinement under a '
-                      'deterministic scheduler + independent property oracle'},
+ 'C10': {'text': 'Lean theorems (40) over all reachable states / all finite histories of an interleaving model of the task lifecycle (task thread: '
+                 'initOk/initFail/wake/runEnter/updCheck/updPop/updPub/setStatus/runEnd/mark/threadEnd; runner constructor; serialised runner '
+                 'operations startCheck+startKick, stopRegion+stopSet, blocking join+joinSet, isRunning, '
+                 "setSettings/getSettings/getPending/getStatus; the compositions __exit__ and release_rpc_object sequenced by the worker's program "
+                 'counter; stop_task issued outside the RPC worker = _request_shutdown and a task stopping itself; one action per `with _state_cond` '
+                 'region): run_at_most_once(+_hist), run_only_after_start(+_hist), stop_first_never_runs(+_hist), second_start_refused / '
+                 'start_after_stop_refused (usage error, state unchanged), first_start_accepted, start_never_asserts_partial + decide witness '
+                 'start_asserts_under_shutdown, join_returns_only_when_finished, join_raises_iff_exception, join_completes, after_join_quiescent, '
+                 'join_after_stop_first_not_stuck, is_running_iff_running, update_true_iff_posted_since_last, settings_newest_wins, '
+                 'pending_is_newest, published_exactly_adopted / publish_carries_adopted_value (sig_settings_updated published exactly once per '
+                 'successful update, with the adopted value), get_status_last_written, composition_joins_after_stop, '
+                 'exit_returns_only_when_finished, removed_means_over (after release_rpc_object: thread ended, joined, run() at most once, runner '
+                 'gone for good), body_unconstrained, self_stop_raises_flag. A second model follows QMI_LoopTask.run statement by statement (three '
+                 'missed-period policies, hook outcomes return / task-stop / other): loop_finalize_exactly_once / _at_most_once (every exit path, '
+                 'none if loop_prepare raised), loop_settings_at_iteration_boundary, loop_counts_at_top, loop_stop_exception_swallowed, '
+                 'loop_outcome_after_finalize, loop_exits_when_stop_seen, skip_lands_on_next_grid_point, missed_period_policy. Tie: the real '
+                 'context, task proxy (incl. with-form and remove_rpc_object), QMI_TaskRunner, _TaskThread, QMI_Task.update_settings and '
+                 'QMI_LoopTask.run under the deterministic scheduler with scripted task bodies / scripted loop hooks and random + fixed runner '
+                 'histories incl. QMI_Thread.shutdown from a helper thread (3.1k scenarios quick / 22.8k thorough, weighted + PCT change points, '
+                 'line-level yield points in update_settings/set_settings); taps at the end of every protected region, the stop-flag write, every '
+                 "settings-deque operation, both signal publications, the loop's clock reads, stop tests, sleeps and hooks give one linearised event "
+                 'log that the Lean driver replays on both models (each event enabled, same result, same state abstraction, next_time equal, stop '
+                 'flag read = lifecycle flag; a reported "join waits for ever" must be a model state where join is disabled and the thread cannot '
+                 'move; after remove_rpc_object the model must be `removed`, joined, nothing half done); independent oracle on call/return marks, '
+                 'task-side observations and the hook-call sequence.',
+         'note': 'Trusted: Lean kernel + 3 axioms; detsched/simworld harness and the taps (class swap of '
+                 "_state_cond/_stop_requested/sig_settings_updated/sig_status_updated, logging deque rebuilt with the code's own maxlen, wrappers on "
+                 "runner methods, _TaskThread.__init__/run/stop_task, the time shim's monotonic(), scripted task and loop-task classes). Region = "
+                 'one action; `self.settings = fifo.pop()` one step; deque(maxlen=1) as an Option slot; loop time in integer ticks, hook bodies '
+                 'scripted; the loop model is sequential and composed with the lifecycle model in the driver. Still outside: RPC serialisation '
+                 '(C03), delivery of published signals (C07), wait-condition wake-up in stop_task (C11), get_task_class_name, custom runner '
+                 'subclasses. start() racing with _request_shutdown can raise AssertionError instead of a usage error (witness proved; QMI never '
+                 "calls shutdown() on a task thread, outside the property's quantifier, not reported). No defect found; seeded edits: round 1 14/16 "
+                 'concrete failing input + 2 refinement-only, round 2 8/10 concrete + 2 refinement-only (SKIP off-by-one, release without join), 4 '
+                 'harmless refactors silent.',
+         'technique': 'Lean 4 proof (inductive invariants over two transition systems + history lemmas + decide witnesses) + trace refinement under '
+                      'a deterministic scheduler + independent property oracle'},
  'C11': {'text': 'Lean theorems over all runs and all interleavings (closure_sound: a set containing the initial states and closed under every '
-                 "thread's step contains every reachable state) of systems built from programs REGENERATED on every run from the AST of stop_task, "
-                 'wait_for_condition, QMI_Task.sleep, pubsub._wait_for_condition, get_next_signal, QMI_LoopTask.run (Gen/SyncProgs.lean; generic '
-                 'interpreter for locks/conditions/events/slot/calls/try-finally). Per system (sleep; get_next_signal with and without timeout + '
-                 'publisher; loop task; two stop requests) the kernel computes the reachable set and checks closure and all obligations (decide '
-                 '+kernel): no_lost_wakeup, no_deadlock, no_thread_error_and_flag_set, wait_after_stop_does_not_park, released_with_stop_exception, '
-                 'sleep_interruptible, loop_task_finalises; negative witness lookup_before_flag_loses_wakeup. Tie: real context/task/proxy under the '
-                 'deterministic scheduler with line-level yield points; stop request swept over every yield index (6.7k schedules quick / 68k '
-                 'thorough); each primitive-operation trace must be a path of the generated system; oracle: stop exception seen, join returns, 0 s '
-                 'virtual time between stop() and release, loop_finalize ran once.',
-         'note': 'Trusted: Lean kernel + propext/Quot.sound; translator tr_syncprogs.py (partial evaluation for state RUNNING, data-dependent '
-                 'branches as nondeterministic choice) validated by trace following; semantics of threading primitives as modelled, time abstract; '
-                 'publisher critical section atomic; liveness in the form no deadlock + no lost wake-up + task-only time-out-free run ends in the '
-                 'stop exception within 40 steps, under fairness; kernel-checked systems ≤ 229 states each, bigger products only by native '
-                 'exploration. No defect found.',
-         'technique': 'Lean 4 proof (generic closure lemma + per-generated-system reachable set and obligations by decide +kernel) + source->model '
-                      'translator + systematic schedule sweep / trace refinement under a deterministic scheduler'},
+                 "thread's step contains every reachable state) of systems built from programs REGENERATED on every run from the AST of "
+                 '_TaskThread.stop_task (whole function, every value of _state), wait_for_condition, QMI_Task.sleep, pubsub._wait_for_condition, '
+                 'get_next_signal, QMI_LoopTask.run, QMI_TaskRunner.stop and _TaskThread._request_shutdown (Gen/SyncProgs.lean; generic interpreter '
+                 'for locks/conditions/events/the _wait_cond slot/_state/calls/try-finally). 13 kernel-checked systems: one or two stop requests '
+                 '(stop() = generated QMI_TaskRunner.stop, second = generated _request_shutdown) x {sleep; get_next_signal(None)/(t) + publisher; '
+                 'free mixture of the three waits + publisher; loop task incl. missed-period policies and self-stop}, and stop_task against a task '
+                 'thread that is not running (INITIAL, READY_TO_RUN x2 requests, construction failed, completed, failed, stopped before start). '
+                 'Small systems: the kernel computes the reachable set (decide +kernel); the four larger ones (514-4638 states): the set is supplied '
+                 'by the compiled driver (Gen/WakeCert.lean) and re-checked entry by entry in 35 chunk theorems glued by cert_chunks_sound. '
+                 'Theorems: no_lost_wakeup, no_deadlock, no_thread_error_and_flag_set, wait_after_stop_does_not_park, released_with_stop_exception '
+                 "(fuel-free inductive Settles: the task's own steps, none a time-out, end on every branch in QMI_TaskStopException) + "
+                 'released_reaches_stop_exception, sleep_interruptible, loop_task_finalises, stop_task_total; negative witness '
+                 'lookup_before_flag_loses_wakeup. Tie: real context/task/proxy under the deterministic scheduler with line-level yield points and '
+                 'yield points after every unsynchronised flag/slot access; stop request swept over every yield index (7.9k schedules quick / 84k '
+                 'thorough) in two priority modes: late waits, delays, boundary durations/time-outs (0, 0.0, negative, 1e-9), paced and permanently '
+                 'late loops, all missed-period policies, publisher, second stopper, stop before start / twice / after join / shutdown hook only; '
+                 'each primitive-operation trace must be a path of the generated system (CPython wait_for semantics); oracle: stop exception seen, '
+                 'join returns, 0 s virtual time between stop() and release, no wait that began after stop() returns normally, loop_finalize once, '
+                 'run() never called when stopped before start. Model counter-examples are replayed (guided schedule, boundary durations) on the '
+                 'real code.',
+         'note': 'Trusted: Lean kernel + propext/Quot.sound; translator tr_syncprogs.py (thread-affinity guards evaluated for the task thread, '
+                 '`assert self.task is not None` taken to hold, data/time-dependent branches as nondeterministic choice, _state accesses as steps of '
+                 'the _state_cond critical section) validated by trace following; semantics of threading primitives as modelled, time abstract; '
+                 "publisher critical section atomic; the task thread's own _state transitions (_TaskThread.run) not modelled; liveness = no deadlock "
+                 '+ no lost wake-up + Settles from every reachable state with the stop request completed and no other thread in a critical section, '
+                 "under fairness; queue capacity 2 and three stop requests only by the driver's native exploration (38k states); proxy/RPC transport "
+                 'of stop() exercised, not modelled. Rebuild after a source change ~2-3 min (15 CPU-min). No defect found.',
+         'technique': 'Lean 4 proof (generic closure lemma; per generated system reachable set by decide +kernel, or driver-supplied certificate '
+                      'checked chunk-wise by the kernel) + source->model translator + systematic schedule sweep / trace refinement under a '
+                      'deterministic scheduler'},
  'C12': {'text': 'Lean theorems over all finite histories with faults at any constructor / release step / stop handler / start step (invariant WF, '
                  'induction): name_unique, duplicate_refused, failed_ctor_no_residue (every state), remove_no_residue, make_remove_no_residue, '
-                 'name_free_after_failed_ctor/remove, stop_releases_each_once (count = 1), released_at_most_once, '
+                 'name_free_after_failed_ctor/remove, stop_releases_each_once (count = 1), released_at_most_once, stop_release_effects (what release '
+                 'does per category: open instrument only warns, unjoined task is stopped and joined, raising release swallowed), '
                  'stop_ends_all_threads_and_connections, call_never_hangs, stale_proxy_fails_promptly, no_restart, double_start_stop_usage_error, '
                  'failed_start_leaves_nothing (+ start_retry_after_failure), failed_qstart_leaves_nothing, dropped_contexts_empty, '
-                 'process_can_start_again (every process history, all start faults); stop‖make clean under all schedules (stop_make_all_schedules). '
-                 'Model tied to QMI_Context / context_singleton by state-refinement runs on real contexts under the deterministic scheduler and '
-                 'in-memory network (4.2k scenarios quick): after every op the object map, handler map, live managers/threads (scheduler and '
-                 "threading.enumerate), sockets, release order and events are compared with the model; stop‖make outcomes must lie in the model's "
-                 'outcome set; calls through proxies racing remove()/stop() (local and peer callers, line-level yields in '
-                 'RpcObjectManager.handle_message, change-point sweep) checked by the oracle.',
+                 'process_can_start_again (every process history, all start faults), base_handler_aborts_stop and stopped_behind_qmis_back (what '
+                 'exactly holds in the two misuse cases). Concurrency: stop_make_any_population — stop() racing make in another thread is clean for '
+                 'EVERY population and EVERY schedule (inductive invariant over the interleaved system + rank), name_unique_concurrent (two makers '
+                 'of one name: exactly one wins, all schedules), no_request_lost / late_call_refused_at_once / manager_stop_completes (any number of '
+                 'callers racing RpcObjectManager.stop(): every delivered request is answered exactly once, the queue of an ended worker is empty, '
+                 'stop terminates). Model tied to QMI_Context / context_singleton / RpcObjectManager / _RpcThread by state-refinement runs on real '
+                 'contexts under the deterministic scheduler and in-memory network (3.1k scenarios quick, 29k thorough): after every op the object '
+                 'map, handler map, live managers/threads (scheduler and threading.enumerate), sockets, release order, left-open transports and '
+                 "per-category release events are compared with the model; stop||make and make||make outcomes must lie in the model's outcome set; "
+                 'calls racing remove()/stop() (local and peer callers, line-level yields in handle_message, change-point sweep) are trace-refined '
+                 'against the manager/worker model event by event; independent oracle on every trace.',
          'note': 'Trusted: Lean kernel + 3 standard axioms; harness (taps, detsched, simnet) and generators. Modelled not verified: OS thread '
-                 'teardown, sockets (simnet; UDP bind fault injected), name validity as input flag, SignalManager/$pubsub, non-Exception stop '
-                 'handlers and qmi.context().stop() (the two misuses excluded from process_can_start_again). stop‖make theorems are for the '
-                 '$context-only population (larger ones by exhaustive exploration in the driver); calls racing remove/stop are explored schedules + '
-                 'oracle only. Fixed in /repo: failed-start roll-back (d5615ad, 8 former findings), handler registered under the map lock (104bb5b); '
-                 'reverting either commit is reported as a VIOLATION with a concrete input.',
-         'technique': 'Lean 4 proof (inductive invariant over op histories; exhaustive kernel decide over schedules lifted to all schedules) + '
-                      'refinement correspondence with the real classes under a deterministic scheduler'},
+                 'teardown, sockets (simnet; UDP bind fault injected), name validity as input flag (diffed against an independent rule incl. '
+                 'case/prefix/suffix/63-64 chars), SignalManager/$pubsub, the router/socket path of a remote call (oracle only; C01/C06 model it). '
+                 'Excluded from process_can_start_again and stated separately: a stop handler raising a non-Exception BaseException (stop() aborts, '
+                 "nothing torn down, for ever) and qmi.context().stop() behind qmi's back (context clean, singleton unusable). stop||make / "
+                 'make||make are tied by outcome-set membership, not trace refinement; make||make is proved for the $context-only instance (kernel '
+                 'decide over all schedules). Fixed in /repo: failed-start roll-back (d5615ad), handler registered under the map lock (104bb5b); '
+                 'reverting either is reported as a VIOLATION with a concrete input.',
+         'technique': 'Lean 4 proof (inductive invariants over op histories and over the interleaved stop||make system with a termination rank; '
+                      'carrier invariant for manager/worker; kernel decide over schedules lifted to all schedules) + refinement correspondence and '
+                      'event-trace refinement with the real classes under a deterministic scheduler'},
  'C13': {'text': 'Lean theorems about an executable model of QMI_Tcp/Udp/SerialTransport (open incl. every way it can fail, close, write, read, '
                  'read_until, read_until_timeout, discard_read; device = oracle script of recv results data|timeout|eof with elapsed virtual time, '
                  'i.e. every packetisation and arrival timing; open() outcomes = oracle plan), for all states, scripts, terminators (any length), '
@@ -281,22 +325,27 @@ CHECKS = {'C01': {'text': 'Lean theorems about an interleaving transition system
                  'concrete input.',
          'technique': 'Lean 4 proof (stream-accounting invariant by induction over fuel-recursive loop models and op lists; clock invariants for the '
                       'deadline loops) + op-sequence correspondence with device-interaction traces against scripted devices'},
- 'C14': {'text': 'Lean theorems, generic over all parser tables passing the decidable checks EnvOk/AllAligned (Gen regenerated from the live parser '
-                 'instances, constructor signatures and create_transport AST; both checks re-decided on it every run), all strings, all well-typed '
-                 'default dictionaries, both platforms: total (FULL strength: a transport or QMI_TransportDescriptorException, nothing else), '
-                 'escapes_classified, faithful/defaults_only_fill/defaults_fill_absent/foreign_defaults_dropped/create_faithful (every attribute = '
-                 'typed token, else caller default, else ctor default), roundtrip_usbtmc/tcp/udp/vxi11, hex_id_roundtrip, decimal_roundtrip. Model '
-                 'tied to qmi.core.transport by differential runs (120k create_transport cases quick: grammar-valid, one mutation, arbitrary; x '
-                 'random defaults x platform; parse_parameter_strings, _parse_parts, int/float/host/inet_pton/_format_resources streams; 5k call '
-                 'histories sharing ONE defaults object, as dict or read-only Mapping) and an independent property oracle incl. list->parse round '
-                 "trips and 'caller's defaults unchanged'.",
-         'note': 'Six defects found by this check were repaired in /repo (c763390, 794f5cc, d053f6d, 4a3416c, 8caa6aa, 72eceb6; each revert is '
-                 "re-detected with a concrete input). Still known: USB serial numbers containing ':' are listed as descriptors that do not parse "
-                 'back (needs a grammar extension). Trusted: regex/int()/float()/inet_pton re-implementations and the __init__/_validate_* bodies '
-                 "are hand-modelled and checked only differentially; gethostbyname('localhost') pinned; lone-surrogate strings and ill-typed "
-                 'defaults out of scope; pyvisa stubbed, transports never opened.',
-         'technique': 'Lean 4 proof (generic over regenerated tables, decidable table checks by decide, symbolic round-trip proofs) + translator + '
-                      'differential correspondence with near-miss and call-history generators + direct oracle'},
+ 'C14': {'text': 'Lean theorems, generic over all parser tables and constructor programs passing the decidable checks EnvOk/AllAligned (Gen '
+                 'regenerated on every run from the live parser instances, constructor signatures, the create_transport AST and the ASTs of the '
+                 '__init__ bodies with super().__init__ chains and _validate_* helpers inlined): total (FULL strength, no hypothesis: every string, '
+                 'both platforms, defaults of any type -> a transport or QMI_TransportDescriptorException), escapes_classified, '
+                 'faithful/defaults_only_fill/defaults_fill_absent/foreign_defaults_dropped, create_faithful + attr_plain/attr_localhost (attributes '
+                 '= what the translated __init__ stores from the typed token, else caller default, else ctor default), obligations gen_stores (every '
+                 'ctor argument stored once in the attribute named after it, (host, port) in _address) and gen_validators (which test with which '
+                 'literal bounds guards which parameter), roundtrip_usbtmc for EVERY serial number (escape_roundtrip: _unescape(_escape(s)) = s), '
+                 'roundtrip_tcp/udp/vxi11, hex_id_roundtrip, decimal_roundtrip. Model tied to qmi.core.transport by differential runs (fixed corpus '
+                 'of bounds, related names, repeated keywords; 120k create_transport cases quick: grammar-valid, one mutation, arbitrary; x random '
+                 'defaults incl. ill-typed values x platform; parse_parameter_strings, _parse_parts, int/float/host/inet_pton/_format_resources '
+                 'streams; call histories sharing one defaults object, dict or read-only Mapping; lone-surrogate strings judged by the oracle alone) '
+                 'and an independent property oracle incl. list_* -> parse round trips on both platform classes.',
+         'note': 'All defects this check found are repaired in /repo (c763390, 794f5cc, d053f6d, 4a3416c, 8caa6aa, 72eceb6, 665b86e, 1757bc8; each '
+                 'revert is re-detected with a concrete input); no open finding. Trusted: regex / int() / float() / inet_pton re-implementations and '
+                 'the semantics of the primitive validator tests (Cond.holds) are hand-modelled and checked differentially; the AST translator; '
+                 "gethostbyname('localhost') pinned; sys.platform switched and pyvisa stubbed by the harness; lone-surrogate strings outside the "
+                 'Lean model; transports never opened.',
+         'technique': 'Lean 4 proof (generic over regenerated tables and constructor programs, decidable obligations by decide, symbolic round-trip '
+                      'proofs) + AST/introspection translator + differential correspondence with near-miss, boundary-corpus and call-history '
+                      'generators + direct oracle'},
  'C15': {'text': 'Composite of part A (SCPI, USBTMC; Props/C15.lean, 27 theorems) and part B (Interbus, APT, T2; Props/C15B.lean, 55 theorems), all '
                  'over unbounded payloads/lengths/splits, no _partial. A: scpi_ask_roundtrip, scpi_missing_terminator_errors, scpi_ask_sound, '
                  'readBinary_roundtrip/encodeBlock (1..9 digits), bad hash/digit count/length/tail => QMI_InstrumentException, '
@@ -327,11 +376,10 @@ CHECKS = {'C01': {'text': 'Lean theorems about an interleaving transition system
                  'recorded, only OSError/ValueError/configuration errors); shipped_wf/shipped_roundtrip for the structs regenerated from '
                  'config_defs.py. Fixed on the way (recorded as fixed, reverting either is caught): TypeError from len() of a non-sized value in a '
                  'fixed Tuple (98ede17), OverflowError from float() of a huge int (f71d1e5), TypeError for a non-string unknown key in structure '
-                 'data (568944c), to_dict emitting init=False fields that from_dict rejects (f6f101b). Open known finding (repair drafted: '
-                 'fixes/C16-nested-struct-with-non-init-field): a *nested* structure with an init=False field cannot be given explicitly — the '
-                 "enclosing constructor's re-validation goes through dataclasses.asdict, which includes the derived field ('Unknown configuration "
-                 "item', or AttributeError when it has no default). Model tied to the code by ~35k quick / ~1M thorough differential cases on real "
-                 '@configstruct classes and real files, plus an independent statement-level oracle.',
+                 'data (568944c), to_dict emitting init=False fields that from_dict rejects (f6f101b), a nested structure with an init=False field '
+                 "not loadable when given explicitly (f3ca37f; the model's instance branch now mirrors the repaired code: an instance is validated "
+                 'through its own items, not dataclasses.asdict). No open finding. Model tied to the code by ~35k quick / ~1M thorough differential '
+                 'cases on real @configstruct classes and real files, plus an independent statement-level oracle.',
          'note': 'Trusted: Lean kernel + 3 standard axioms; translator (dataclasses.fields -> Gen/CfgDefs.lean), annotation inspection '
                  '(describe_raw) and harness; json.loads/dumps as parameters (round trip assumed, dumps(indent=4) layout compared differentially); '
                  'regex of _strip_comments re-implemented as a scanner (differential only); floats opaque (repr; float(int) resolved by Python); '
@@ -345,19 +393,20 @@ CHECKS = {'C01': {'text': 'Lean theorems about an interleaving transition system
                       '(structs, raw annotations, texts, real files, create_config_from_file) + independent property oracle + fixed boundary corpus'},
  'C17': {'text': 'Stored data reads back equal (HDF5/text, incl. conversion chains), is never silently overwritten, folders are fresh even under '
                  'concurrent creation, latest-folder lookup is the max for the label and agrees with the listing, recorder keeps every block once '
-                 'and in order and every attribute newest-wins under all interleavings',
-         'note': '44 theorems, all full strength, no _partial: text attribute round trip on every valid value (incl. \\U escapes); '
+                 'and in order and every attribute newest-wins under all interleavings, and close() reports a failed writer',
+         'note': '48 theorems, all full strength, no _partial: text attribute round trip on every valid value (incl. \\U escapes); '
                  'layout/reshape/scale for all shapes, with well-formedness derived from the DataSet constructor/setters; float64 exactness of the '
-                 "text writer's integer check (accept iff exactly representable, threshold 2^53 sound, rounding idempotent); refused writes leave an "
-                 'empty file only; HDF5 attribute map; overwrite histories; make_folder freshness incl. a two-caller interleaving model (only mkdir '
-                 'atomic); find_latest maximal, = last of list_folders, None iff listing empty; recorder block conservation, close, attribute '
-                 'newest-wins, writer progress. 5 defects found and repaired in /repo (9 signatures fixed); 1 open known finding (writer-thread I/O '
-                 'error not reported by close(), repair drafted in fixes/). h5py/numpy/OS/CPython float & repr remain trusted.',
+                 "text writer's integer check; refused writes leave an empty file only; HDF5 attribute map; overwrite histories; make_folder "
+                 'freshness incl. a two-caller interleaving model (only mkdir atomic); find_latest maximal, = last of list_folders, None iff listing '
+                 'empty; recorder block conservation, close, attribute newest-wins, writer progress, and — with a writer I/O failure as a model '
+                 'action — close() returns normally only if every block recorded before close is in the file. 6 defects found and repaired in /repo '
+                 '(10 signatures fixed, last: 342cad2 close() reports a writer error); no open finding. h5py/numpy/OS/CPython float & repr remain '
+                 'trusted.',
          'technique': 'Lean 4 models + differential correspondence on the real code (7 write/read/convert paths, tagged layout probes, HDF5 '
                       'attribute-map probes, int(float(v)) vs toF64, DataSet API accept/refuse, store histories with related-label families, '
                       'midnight/year roll-over, list_folders) + forced two-thread race inside make_folder + trace refinement of the recorder with '
-                      'the writer thread line-stepped (sys.settrace + cooperative Condition) at every position + I/O fault injection into the '
-                      'writer'},
+                      'the writer thread line-stepped (sys.settrace + cooperative Condition) at every position + I/O fault injection into the writer '
+                      "(free-running and line-stepped, refined against the model's crash/close)"},
  'C18': {'text': 'Lean theorems for every packet layout passing WellFormed (live ctypes layout, MAGIC, enum, lookup table, recvfrom sizes, the '
                  'is_valid_object_name limit, the responder port and the default collection window are regenerated into Gen/DiscoveryLayouts.lean on '
                  'every run; gen_layout_wf by decide): glob_sound_complete (state-set matcher = inductive shell-pattern semantics, all '
